@@ -23,6 +23,31 @@ namespace nmtools::array
         }
     };
 
+    namespace detail
+    {
+        // The packed loops of the simd evaluators walk the raw buffers in flat row-major order.
+        // true unless T (array, pointer to array, or tuple of these) is known to be stored in another layout.
+        template <typename T>
+        constexpr auto simd_is_row_major()
+        {
+            using type = meta::remove_cvref_pointer_t<T>;
+            if constexpr (meta::is_tuple_v<type>) {
+                constexpr auto N = meta::len_v<type>;
+                return meta::template_reduce<N>([](auto init, auto index){
+                    constexpr auto I = decltype(index)::value;
+                    return init && simd_is_row_major<meta::remove_cvref_t<decltype(nmtools::get<I>(meta::declval<type>()))>>();
+                }, true);
+            } else {
+                using axis_t = meta::remove_cvref_t<decltype(meta::contiguous_axis_v<type>)>;
+                if constexpr (meta::is_fail_v<axis_t>) {
+                    return true; // layout unknown (raw / nested arrays, scalars): keep the existing behaviour
+                } else {
+                    return meta::contiguous_axis_v<type> == -1;
+                }
+            }
+        }
+    } // namespace detail
+
     template <typename view_t, typename simd_tag_t, typename resolver_t>
     struct evaluator_t<view_t,simd_base_t<simd_tag_t>,resolver_t>
     {
@@ -486,6 +511,13 @@ namespace nmtools::array
         template <typename output_t>
         constexpr auto operator()(output_t& output) const
         {
+            using operands_t = meta::remove_cvref_t<decltype(get_array(view))>;
+            if constexpr (!detail::simd_is_row_major<operands_t>() || !detail::simd_is_row_major<output_t>()) {
+                // an operand (or the output) is not stored row-major: use the scalar evaluator
+                auto fallback = evaluator_t<view_t,none_t,resolver_t>{view,None};
+                fallback(output);
+                return true;
+            } else
             if constexpr (meta::is_reduction_v<view_type>) {
                 return this->eval_reduction(output);
             } else if constexpr (meta::is_outer_v<view_type>) {
